@@ -9,8 +9,9 @@
 (*               zone_cat_breaks = _strides(sorted_zone_values, unique_cats), cat_start = 0     *)
 (*   CatStep     one iteration of `for j, cat in enumerate(unique_cats)` with the running       *)
 (*               cat_start (2-D) or the per-layer aggregate (3-D); appends to crosstab_dict     *)
-(*   at pc = "done" the DataFrame is crosstab_dict: column "zone" = zone_ids (request order),   *)
-(*   one list per selected category, percentage = counts / total_count * 100                    *)
+(*   at pc = "done" the DataFrame is crosstab_dict: column "zone" = zone_ids (the existing       *)
+(*   requested zones in unique_zones order since fix 2bd4c42; in request order before), one      *)
+(*   list per selected category, percentage = counts / total_count * 100                         *)
 (* Invariants relate the table to the abstract contingency table of ZonalOps.                  *)
 EXTENDS ZonalOps
 
@@ -18,7 +19,7 @@ CONSTANTS DIM,          \* 2 | 3
           Rasters,      \* set of [z |-> zones, vs |-> sequence of layers (one for 2-D)]
           CATS,         \* 3-D: layer labels in coordinate order (ignored for 2-D)
           Selections,   \* set of [nd, zreq |-> [all, ids], creq |-> [all, ids], agg]
-          VARIANT,      \* {} = the code as it is; repairs "catstart", "labels", "strip"
+          VARIANT,      \* {"dropneginf","catstart","labels"} = the code today; fewer repairs = before the fix: commits
           MUT           \* "none" | negative twins "lastcell" | "totalsel" | "noinf" | "nosort" | "startsel"
 
 VARIABLES inp, sel, pc, vbz, zb, uz, ucats, zids, cids, i, start, j, catStart, zoneVals, zcb, totals, dict, owner
